@@ -20,6 +20,20 @@ def main():
     mod = importlib.import_module("vt." + a.prop.lower())
     if a.replay:
         doc = json.load(open(a.replay))
+        if doc.get("discrepancy") == "interpreter-crashed":
+            # re-run exactly that shard in a child process and see whether the interpreter dies again
+            import multiprocessing as mp
+
+            c = doc["case"]
+            p = mp.get_context("fork").Process(target=getattr(mod, "shard"), args=(c["shard"], c["of"], c["tier"], 0))
+            p.start()
+            p.join()
+            if p.exitcode and p.exitcode < 0:
+                print(f"VIOLATION property={a.prop} replay={a.replay}")
+                print(f"   interpreter crashed again (signal {-p.exitcode}) in shard {c['shard']}/{c['of']}")
+                return 1
+            print("replay: the shard completes on this tree")
+            return 0
         discs = mod.replay(doc["case"])
         if discs:
             print(f"VIOLATION property={a.prop} replay={a.replay}")
